@@ -56,6 +56,18 @@ UNDECIDED_KINDS = ('rlimit', 'resource limit', 'timed out', 'timeout', 'panicked
 
 
 def run_verus_unit(unit, outdir, repo_dir, rlimit=None, canary=True):
+    """Extract + verify one unit; when Verus rejects the text only because a function that became
+    recursive (or a new loop) has no `decreases`, verify again for partial correctness."""
+    res = run_verus_unit_once(unit, outdir, repo_dir, rlimit=rlimit, canary=canary)
+    if res['result'] == UNDECIDED and 'must have a decreases clause' in (res.get('reason') or '') + (res.get('stderr') or ''):
+        res2 = run_verus_unit_once(unit, outdir, repo_dir, rlimit=rlimit, canary=canary, no_decreases=True)
+        res2['no_decreases'] = True
+        res2['assumptions'] = list(res2.get('assumptions', [])) + [f'unit {unit}: an extracted function is recursive or loops without a `decreases` clause in the contract template; verified with #[verifier::exec_allows_no_decreases_clause] (partial correctness: termination NOT checked)']
+        return res2
+    return res
+
+
+def run_verus_unit_once(unit, outdir, repo_dir, rlimit=None, canary=True, no_decreases=False):
     """Extract + verify one unit.  Returns dict(result=..., functions=[...], failures=[...], ...)."""
     t0 = time.time()
     base, _, feats = unit.partition('+')
@@ -63,7 +75,7 @@ def run_verus_unit(unit, outdir, repo_dir, rlimit=None, canary=True):
     tmpl = os.path.join(VERIF, 'units', base + '.rs')
     res = {'engine': 'verus', 'unit': unit, 'result': UNDECIDED, 'functions': [], 'failures': [],
            'items': [], 'assumptions': [], 'reason': '', 'smt_s': 0.0, 'wall_s': 0.0, 'cmd': ''}
-    u = extract.Unit(repo_dir, VERIF, tmpl, features=features)
+    u = extract.Unit(repo_dir, VERIF, tmpl, features=features, no_decreases=no_decreases)
     try:
         text = u.render()
     except extract.ExtractError as e:
